@@ -210,6 +210,7 @@ def gen_plan(rng, tier, index, config=None):
                 steps.append({"op": "recover", "z": z2, "r": rr, "s": s2,
                               "signer": enc(Q) if how in ("valid", "malleated") else None,
                               "nonce_x": R[0] if (how in ("valid", "malleated") and R is not None) else None,
+                              "nonce_y_odd": ((R[1] & 1) ^ (1 if how == "malleated" else 0)) if (how in ("valid", "malleated") and R is not None) else None,
                               "parity": r.pick([None, None, 0, 1])})
                 continue
             how = r.weighted([("valid", 4), ("malleated", 2), ("other_key", 2), ("other_z", 2), ("r0", 1), ("s0", 1),
@@ -604,6 +605,8 @@ def _op_recover(ctx, C, reps, st, hist_r, cfg):
             if nx >= n:
                 ctx.probe("nonce_x_ge_n")
             elif parity is None:
+                # (calls with a y_parity hint are only held to "every returned key verifies": the statement
+                # does not speak about the hint)
                 if signer in out:
                     ctx.probe("recover_signer_found")
                 else:
